@@ -198,5 +198,10 @@ struct TK
         if (has) return n0('a')[prec].get_precedence();
         return n0('a').get_precedence();
     }
+    static std::pair<int, int> dsl_term(int which, int prec, int assoc)
+    {
+        auto t = ctpg::typed_term(ctpg::char_term(char('a' + which % 6), prec, ctpg::associativity(assoc)), TermF<0>{});
+        return {t.get_precedence(), int(t.get_associativity())};
+    }
 };
 }
